@@ -81,9 +81,7 @@ def c05(ctx):
     ctx.add(obs)
     ctx.rep.extra["partial_functions"] = {"A": summ}
     ctx.add(fallback_consumers(fx))
-    b = fx.fn(PB_QFB)
-    if b is not None:
-        ctx.add([o for o in p_kinds.parblock_ranges(fx, b) if "no-extents" in o.key or "ANCHOR" in o.key])
+    ctx.add([o for o in p_kinds.parblock_ranges(fx) if "no-extents" in o.key or "whole-file" in o.key or "ANCHOR" in o.key])
     ctx.add([o for o in r_err.run(fx, crates=("libfs",))])
     ctx.add([o for o in r_err.run(fx, crates=("libxcp",)) if o.fn in (COPY_BYTES, COPY_SPARSE, COPY_FILE, TRY_REFLINK,
                                                                       PB_QFB, PB_QFR, PB_QFR + "::{closure#0}")])
